@@ -7,11 +7,13 @@ import (
 	"math/rand"
 	"net/netip"
 	"os"
+	"reflect"
 	"sort"
 	"strings"
 	"sync/atomic"
 	"testing"
 	"time"
+	"unsafe"
 
 	"github.com/mdlayher/corerad/internal/config"
 	"github.com/mdlayher/ndp"
@@ -85,6 +87,8 @@ func TestVerifC18(t *testing.T) {
 		var ev []vfake.Event
 		delivered, invalid := 0, 0
 		var onMsgA atomic.Int32
+		var readings []time.Time
+		wantStep, stepping := r.Part != "race" && i%3 == 1, false
 		returned := false
 		var runErr error
 		pm := vBubble(t, func() {
@@ -92,6 +96,18 @@ func TestVerifC18(t *testing.T) {
 			h.startMonitor(ifi.Verbose)
 			h.mon.OnMessage = func(ndp.Message) { onMsgA.Add(1) }
 			h.settle()
+			// one sequence in three: a clock that moves on between two readings, as a
+			// real one does (found by type, so a renamed field is still found)
+			if wantStep {
+				stepping = c18SetClock(h.mon, func() time.Time {
+					t := time.Now().Add(time.Duration(len(readings)) * c18Step)
+					readings = append(readings, t)
+					return t
+				})
+				if !stepping {
+					r.Count("stepping_clock_unavailable", 1)
+				}
+			}
 			run := 0
 			var lastRA *ndp.RouterAdvertisement
 			var lastFrom netip.Addr
@@ -135,6 +151,20 @@ func TestVerifC18(t *testing.T) {
 					run = 0
 				}
 				before := int(onMsgA.Load())
+				readings = readings[:0]
+				var raUpd func(time.Time)
+				var undo []func()
+				set := func(f, k string, v float64) {
+					old, had := shadow[f][k]
+					undo = append(undo, func() {
+						if had {
+							shadow[f][k] = old
+						} else {
+							delete(shadow[f], k)
+						}
+					})
+					shadow[f][k] = v
+				}
 				h.deliver(vfake.In{Msg: msg, Hop: hop, From: from})
 				h.settle()
 				now := time.Now()
@@ -153,22 +183,24 @@ func TestVerifC18(t *testing.T) {
 					}
 					shadow[monReceived]["interface=veth0,host="+host+",message="+typ]++
 					if ra, ok := msg.(*ndp.RouterAdvertisement); ok {
-						key := "interface=veth0,router=" + host
-						shadow[monFlagManaged][key] = float64(b2i(ra.ManagedConfiguration))
-						shadow[monFlagOther][key] = float64(b2i(ra.OtherConfiguration))
-						if ra.RouterLifetime != 0 {
-							shadow[monDefaultRoute][key] = float64(now.Add(ra.RouterLifetime).Unix())
-						}
-						for _, o := range ra.Options {
-							p, ok := o.(*ndp.PrefixInformation)
-							if !ok {
-								continue
+						raUpd = func(now time.Time) {
+							key := "interface=veth0,router=" + host
+							set(monFlagManaged, key, float64(b2i(ra.ManagedConfiguration)))
+							set(monFlagOther, key, float64(b2i(ra.OtherConfiguration)))
+							if ra.RouterLifetime != 0 {
+								set(monDefaultRoute, key, float64(now.Add(ra.RouterLifetime).Unix()))
 							}
-							pk := "interface=veth0,prefix=" + netip.PrefixFrom(p.Prefix, int(p.PrefixLength)).String() + ",router=" + host
-							shadow[monPrefixAutonomous][pk] = float64(b2i(p.AutonomousAddressConfiguration))
-							shadow[monPrefixOnLink][pk] = float64(b2i(p.OnLink))
-							shadow[monPrefixPreferred][pk] = float64(now.Add(p.PreferredLifetime).Unix())
-							shadow[monPrefixValid][pk] = float64(now.Add(p.ValidLifetime).Unix())
+							for _, o := range ra.Options {
+								p, ok := o.(*ndp.PrefixInformation)
+								if !ok {
+									continue
+								}
+								pk := "interface=veth0,prefix=" + netip.PrefixFrom(p.Prefix, int(p.PrefixLength)).String() + ",router=" + host
+								set(monPrefixAutonomous, pk, float64(b2i(p.AutonomousAddressConfiguration)))
+								set(monPrefixOnLink, pk, float64(b2i(p.OnLink)))
+								set(monPrefixPreferred, pk, float64(now.Add(p.PreferredLifetime).Unix()))
+								set(monPrefixValid, pk, float64(now.Add(p.ValidLifetime).Unix()))
+							}
 						}
 					}
 				}
@@ -176,13 +208,48 @@ func TestVerifC18(t *testing.T) {
 					break
 				}
 				all, _ := h.mm.Series()
-				for _, f := range vMonFamilies {
-					got := all[f].Samples
-					if d := vDiffSamples(shadow[f], got); d != "" {
-						viol, cls = fmt.Sprintf("after message %d (%s from %s, hop %d) series %s: %s", k, typ, from, hop, f, d), "series:"+f
-						det = map[string]any{"message": fmt.Sprintf("%+v", msg)}
+				// The receipt time of a message is one instant.  With the stepping clock
+				// every reading made while the message was handled is a candidate; all the
+				// expiry gauges must follow from one and the same of them.
+				cands := []time.Time{now}
+				if stepping && len(readings) > 0 {
+					cands = readings
+					r.Count("stepping_clock_messages", 1)
+					r.Max("clock_readings_per_message_max", int64(len(readings)))
+				}
+				var firstViol, firstCls string
+				for ci, c := range cands {
+					undo = undo[:0]
+					if raUpd != nil {
+						raUpd(c)
+					}
+					v1, c1 := "", ""
+					for _, f := range vMonFamilies {
+						got := all[f].Samples
+						if d := vDiffSamples(shadow[f], got); d != "" {
+							v1, c1 = fmt.Sprintf("after message %d (%s from %s, hop %d) series %s: %s", k, typ, from, hop, f, d), "series:"+f
+							break
+						}
+					}
+					if v1 == "" {
+						firstViol = ""
 						break
 					}
+					if ci == 0 {
+						firstViol, firstCls = v1, c1
+					}
+					if ci < len(cands)-1 {
+						for j := len(undo) - 1; j >= 0; j-- {
+							undo[j]()
+						}
+					}
+				}
+				if firstViol != "" {
+					viol, cls = firstViol, firstCls
+					if len(cands) > 1 {
+						viol += fmt.Sprintf(" (the clock was read %d times while this message was handled, %v apart; no single reading accounts for every expiry gauge)", len(cands), c18Step)
+					}
+					det = map[string]any{"message": fmt.Sprintf("%+v", msg)}
 				}
 				select {
 				case <-h.runDone:
@@ -250,4 +317,21 @@ func tail(ev []vfake.Event, n int) []vfake.Event {
 		return ev[len(ev)-n:]
 	}
 	return ev
+}
+
+// c18Step: how far the stepping clock moves between two readings.
+const c18Step = 350 * time.Millisecond
+
+// c18SetClock replaces the monitor's clock (the one field of type
+// func() time.Time) and reports whether there is one.
+func c18SetClock(m *Monitor, f func() time.Time) bool {
+	v := reflect.ValueOf(m).Elem()
+	want := reflect.TypeOf(f)
+	for i := 0; i < v.NumField(); i++ {
+		if v.Field(i).Type() == want {
+			*(*func() time.Time)(unsafe.Pointer(v.Field(i).UnsafeAddr())) = f
+			return true
+		}
+	}
+	return false
 }
